@@ -199,7 +199,7 @@ func (f *OrefaFile) Read(b []byte) (n int, err error) {
 
 	f.at += int64(n)
 
-	if n == 0 {
+	if n == 0 && len(b) > 0 {
 		return 0, io.EOF
 	}
 
@@ -249,7 +249,11 @@ func (f *OrefaFile) ReadAt(b []byte, off int64) (n int, err error) {
 	nd.mu.RLock()
 	defer nd.mu.RUnlock()
 
-	if int(off) > len(nd.data) {
+	if len(b) == 0 {
+		return 0, nil
+	}
+
+	if off > int64(len(nd.data)) {
 		return 0, io.EOF
 	}
 
